@@ -481,6 +481,13 @@ func (w *wInterp) assign(lhs ast.Expr, v wv, define bool) {
 		}
 		s[i] = v
 	case *ast.SelectorExpr:
+		// a field of an element (c.Gates[i].Level = v): the element is an object handle
+		if _, isIndex := ast.Unparen(t.X).(*ast.IndexExpr); isIndex {
+			if h, ok := w.expr(t.X).(string); ok && w.fail == "" {
+				w.envSetGlobal(h+"."+t.Sel.Name, v)
+				return
+			}
+		}
 		w.set(cx(t), v, define)
 	default:
 		w.bad("assignment to %s", cx(lhs))
